@@ -834,8 +834,24 @@ type cli struct {
 	reader    string // "", spin, read, gone : what the history says about this connection's relay goroutine
 }
 
-func dialProxy(port string) (*cli, error) {
-	c, err := net.DialTimeout("tcp4", "127.0.0.1:"+port, 10*time.Second)
+func dialProxy(port string) (*cli, error) { return dialProxyBuf(port, 0) }
+
+// dialProxyBuf: with rcvbuf > 0 the client socket gets that SO_RCVBUF before it connects (the
+// window offered in the SYN already reflects it) - a peer that can take little at a time.
+func dialProxyBuf(port string, rcvbuf int) (*cli, error) {
+	d := net.Dialer{Timeout: 10 * time.Second}
+	if rcvbuf > 0 {
+		d.Control = func(network, address string, rc syscall.RawConn) error {
+			var e error
+			if err := rc.Control(func(fd uintptr) {
+				e = syscall.SetsockoptInt(int(fd), syscall.SOL_SOCKET, syscall.SO_RCVBUF, rcvbuf)
+			}); err != nil {
+				return err
+			}
+			return e
+		}
+	}
+	c, err := d.Dial("tcp4", "127.0.0.1:"+port)
 	if err != nil {
 		return nil, err
 	}
